@@ -86,7 +86,7 @@ func genEllswift(g *core.Gen) {
 		}
 		kase(g, cls, true, "C19 xswift "+u+" "+t)
 	}
-	for i := 0; i < g.N(150, 8000); i++ {
+	for i := 0; i < g.N(150, 3000); i++ {
 		u, x := hx(r.Bytes(32)), randCurveX(r)
 		cls := "xswiftinv"
 		switch r.Intn(8) {
@@ -346,7 +346,7 @@ func genPk(g *core.Gen) {
 			kase(g, "pk-truncate-every", true, pkLine(sec, magic, ini, ps, fmt.Sprintf("t%d", off), recvPlan(ps, 0)))
 		}
 	}
-	for i := 0; i < g.N(1000, 40000); i++ {
+	for i := 0; i < g.N(1000, 20000); i++ {
 		n := 1 + r.Intn(6)
 		if r.Chance(1, 30) {
 			n = 222 + r.Intn(6) // tampering around a rekey boundary
@@ -481,7 +481,7 @@ func genEp(g *core.Gen) {
 			}
 		}
 	}
-	for i := 0; i < g.N(10, 300); i++ {
+	for i := 0; i < g.N(10, 150); i++ {
 		emit("ep-valid", mk(-1, -1, r.Intn(8), g.N(3000, 100000)))
 	}
 	// long sessions: >= 700 packets each way (3 rekeys)
@@ -525,7 +525,7 @@ func genEp(g *core.Gen) {
 		kase(g, cls, true, c.line(inp, nil))
 	}
 	// tampering with the handshake part of the input stream
-	for i := 0; i < g.N(6, 120); i++ {
+	for i := 0; i < g.N(6, 60); i++ {
 		s := mk(int(r.Pick(-1, 0, 3, 4095)), int(r.Pick(-1, 0, 3, 4095)), 1+r.Intn(3), 0)
 		for side := 0; side < 2; side++ {
 			me, peer, inp, mine, theirs := s.a, s.b, s.wb, s.pa, s.pb
